@@ -449,6 +449,60 @@ def rule_p9(f, R):
     return n
 
 
+def rule_store(repo, R):
+    """The shell object keeps what it is given: for the scalar properties of GeneralizedContractionShell (icenter, angmom) the
+    setter is interpreted by case analysis (gbsa/cases.py) on one representative per class of argument and the getter must return
+    the stored value - in particular atom index 0 (the first atom) stays 0."""
+    from .. import cases
+    cls = repo.cls("gbasis.contractions.GeneralizedContractionShell")
+    spec = {
+        # property -> [(argument, expected)]  expected = ("ok", stored value) | ("raise", exception)
+        "icenter": [(None, ("ok", None)), (0, ("ok", 0)), (1, ("ok", 1)), (7, ("ok", 7)), (2.5, ("raise", "TypeError")), ("1", ("raise", "TypeError"))],
+        "angmom": [(0, ("ok", 0)), (1, ("ok", 1)), (4, ("ok", 4)), (-1, ("raise", "ValueError")), (1.0, ("raise", "TypeError")), (None, ("raise", "TypeError"))],
+    }
+    n = 0
+    for prop, table in spec.items():
+        getter = setter = None
+        for node in cls.node.body:
+            if isinstance(node, ast.FunctionDef) and node.name == prop:
+                decos = [ast.unparse(d) for d in node.decorator_list]
+                if "property" in decos:
+                    getter = node
+                elif f"{prop}.setter" in decos:
+                    setter = node
+        if getter is None or setter is None:
+            raise AnalysisError("STORE", f"property `{prop}` of GeneralizedContractionShell not found (getter and setter)")
+        site = f"contractions.GeneralizedContractionShell.{prop}"
+        where = f"{cls.module.relpath}:{setter.lineno}"
+        for arg, want in table:
+            obj = cases.Obj()
+            try:
+                got = cases.call_method(setter, obj, [arg])
+                if got[0] == "ok":
+                    got = cases.call_method(getter, obj, [])
+            except cases.Unmodelled as ex:
+                raise AnalysisError("STORE", f"the `{prop}` setter/getter uses a construct outside the case-analysis fragment: {ex}", where)
+            n += 1
+            ok = got == want and (got[0] != "ok" or type(got[1]) is type(want[1]))
+            R.check(ok, "STORE", site, f"{prop} = {arg!r}",
+                    f"assigning {arg!r} to `{prop}` must " + (f"store {want[1]!r}" if want[0] == "ok" else f"raise {want[1]}") +
+                    f"; the code " + (f"stores {got[1]!r}" if got[0] == "ok" else f"raises {got[1]}") +
+                    (" (the first atom's index 0 is lost)" if prop == "icenter" and arg == 0 and got != want else ""),
+                    where=where, expected=str(want), found=str(got))
+    # the constructor hands each argument to its own property
+    init = cls.lookup("__init__")
+    pairs = {}
+    for st in init.node.body:
+        if isinstance(st, ast.Assign) and len(st.targets) == 1 and isinstance(st.targets[0], ast.Attribute) and ast.unparse(st.targets[0].value) == "self":
+            pairs[st.targets[0].attr] = ast.unparse(st.value)
+    for prop in ("angmom", "coord", "coeffs", "exps", "coord_type", "icenter"):
+        n += 1
+        R.check(pairs.get(prop) == prop, "STORE", "contractions.GeneralizedContractionShell.__init__", f"self.{prop} = {pairs.get(prop)}",
+                f"the constructor must hand its argument `{prop}` to the property of the same name", where=init.where(), expected=f"self.{prop} = {prop}",
+                found=pairs.get(prop))
+    return n
+
+
 def rule_p5_producer(f, R):
     """Producers build (angmom, exps, coeffs) records; column i of the coefficient matrix goes with the i-th letter."""
     _CONST_SCOPE[:] = [(f.node, f.module)]
@@ -806,6 +860,7 @@ def run(repo, R):
     R.rule("P6", "shells are built atom-major in the given order with that atom's coordinate row and index")
     R.rule("P7", "each shell receives the next coordinate type in construction order (iterator/running index, never per-atom)")
     R.rule("P9", "every line of a record's text is tried against the row pattern (complete split, non-matching lines skipped with continue)")
+    R.rule("STORE", "the shell keeps the atom index / angular momentum it is given (setter by case analysis: None, 0, positive, invalid); __init__ hands each argument to its own property")
     R.rule("P8", "operations on coord_types stay within the Sequence protocol (list or tuple accepted, nothing consumed)")
     R.rule("PYSCF", "from_pyscf unpacks [l, [exp, c1, c2...], ...] records: l, column 0, columns 1:, per atom in _atom order")
     R.rule("E1", "the import functions do not mutate their arguments (EFFECTS)")
@@ -838,6 +893,7 @@ def run(repo, R):
     rule_p5_producer(nw, R)
     rule_p5_producer(gbs, R)
     rule_make_contractions(repo, mk, R)
+    rule_store(repo, R)
     rule_pyscf(repo, pyscf, R)
     # E1 restricted to the import functions
     eff = Effects(repo)
